@@ -493,3 +493,39 @@ package bt
 //@   bytes token
 //@   ensures[C01.txs_read_count] (=> (= err nil) (= (blen (old (rem r))) (+ r0 (blen (rem r)))))
 //@   loop 0 invariant (= (blen (old (rem r))) (+ bytesRead (blen (rem r))))
+
+// ---- FORKID signature hash (C02) ----
+//@ func bt.(*Input).PreviousTxID
+//@   pure
+//@   ensures[prevtxid] (= result (. i previousTxID))
+//@ func bt.(*Tx).PreviousOutHash
+//@   bytes token
+//@   pure
+//@   requires (spec.inputs_nonnil tx)
+//@   fresh result
+//@   ensures[C02.hash_prevouts] (and (= (len result) 32) (= (bytes result) (bsha256d (old (spec.prevouts tx (len (. tx Inputs)))))))
+//@   loop 0 invariant (fresh buf)
+//@   loop 0 invariant (= (bytes buf) (old (spec.prevouts tx (+ rangeindex 1))))
+//@ func bt.(*Tx).SequenceHash
+//@   bytes token
+//@   pure
+//@   requires (spec.inputs_nonnil tx)
+//@   fresh result
+//@   ensures[C02.hash_sequence] (and (= (len result) 32) (= (bytes result) (bsha256d (old (spec.seqs tx (len (. tx Inputs)))))))
+//@   loop 0 invariant (fresh buf)
+//@   loop 0 invariant (= (bytes buf) (old (spec.seqs tx (+ rangeindex 1))))
+//@ func bt.(*Tx).OutputsHash
+//@   bytes token
+//@   pure
+//@   requires (spec.out_scripts_nonnil tx) (or (= n -1) (and (<= 0 n) (< n (len (. tx Outputs)))))
+//@   fresh result
+//@   ensures[C02.hash_outputs] (and (= (len result) 32) (= (bytes result) (bsha256d (ite (= n -1) (old (spec.ser_outs tx (len (. tx Outputs)))) (old (spec.out_bytes (at (. tx Outputs) n)))))))
+//@   loop 0 invariant (fresh buf)
+//@   loop 0 invariant (= (bytes buf) (old (spec.ser_outs tx (+ rangeindex 1))))
+//@ func bt.(*Tx).CalcInputPreimage
+//@   bytes token
+//@   pure
+//@   requires (spec.inputs_nonnil tx) (spec.out_scripts_nonnil tx)
+//@   requires (< (len (. tx Outputs)) 2147483648)
+//@   ensures[C02.preimage_errors] (= (= err nil) (and (< inputNumber (len (. tx Inputs))) (> (len (. (at (. tx Inputs) inputNumber) previousTxID)) 0) (not (nil? (. (at (. tx Inputs) inputNumber) PreviousTxScript)))))
+//@   ensures[C02.preimage] (=> (= err nil) (= (bytes r0) (old (spec.preimage143 tx inputNumber sigHashFlag))))
